@@ -362,6 +362,46 @@ fn run_job(args: &Args, job: &Value, seq: usize) -> Value {
     }
     let rootpath = tree::join(&sb, rootrel);
     let op = job["op"].clone();
+    if let Some(uid) = job.get("as_uid").and_then(|u| u.as_u64()) {
+        // run the call (library or raw kernel oracle) on a thread whose effective/fs uid is `uid`
+        // (raw setresuid is per-thread on Linux); untraced: the supervisor would execute calls as root
+        let rflags = job.get("rflags").and_then(|r| r.as_u64()).unwrap_or(0);
+        let op2 = op.clone();
+        let rp = rootpath.clone();
+        let h = std::thread::spawn(move || -> Value {
+            let root = if op2["k"].as_str() == Some("raw_openat2") {
+                None
+            } else {
+                match Root::open(&rp) {
+                    Ok(r) => Some(r.with_resolver_flags(ResolverFlags::from_bits_retain(rflags))),
+                    Err(e) => return json!({"setup_err": e.to_string()}),
+                }
+            };
+            unsafe {
+                if libc::syscall(libc::SYS_setresuid, -1i64, uid as i64, -1i64) != 0 {
+                    return json!({"setup_err": "setresuid failed"});
+                }
+            }
+            if op2["k"].as_str() == Some("raw_openat2") {
+                return raw_openat2(&rp, &op2);
+            }
+            let r = std::panic::catch_unwind(std::panic::AssertUnwindSafe(|| run_rust(root.as_ref().unwrap(), None, None, &op2)));
+            match r {
+                Ok(oc) => {
+                    let v = outcome_json(&oc);
+                    if let Outcome::Fd(fd) = oc {
+                        unsafe { libc::close(fd) };
+                    }
+                    v
+                }
+                Err(_) => json!({"panic": "thread"}),
+            }
+        });
+        out["res"] = h.join().unwrap_or(json!({"panic": "join"}));
+        let _ = std::process::Command::new("chmod").arg("-R").arg("u+rwx").arg(&sb).status();
+        let _ = std::fs::remove_dir_all(&sb);
+        return out;
+    }
     if op["k"].as_str() == Some("concurrent") {
         // several library calls racing each other on real threads (untraced), released by a barrier
         let rflags = job.get("rflags").and_then(|r| r.as_u64()).unwrap_or(0);
